@@ -56,6 +56,7 @@ class FunctionEffects(object):
             self.self_name = fi.params[0]
         self.locals = local_names(self.fn)
         self.assignments = {}   # local name -> list of value exprs (or ('elem', expr) for loop targets)
+        self.elem_adds = {}     # local container name -> [('val', expr) | ('elems', expr)] put into it
         self._collect_assignments()
         self._orig_cache = {}
 
@@ -77,6 +78,8 @@ class FunctionEffects(object):
             if isinstance(n, ast.Assign):
                 for t in n.targets:
                     bind(t, n.value)
+                    if isinstance(t, ast.Subscript) and isinstance(t.value, ast.Name):
+                        self.elem_adds.setdefault(t.value.id, []).append(('val', n.value))   # L[k] = v
             elif isinstance(n, ast.AnnAssign) and n.value is not None:
                 bind(n.target, n.value)
             elif isinstance(n, (ast.For, ast.AsyncFor)):
@@ -89,6 +92,15 @@ class FunctionEffects(object):
                 bind(n.target, n.value)
             elif isinstance(n, ast.comprehension):
                 bind(n.target, n.iter, elem=True)
+            elif isinstance(n, ast.Call) and isinstance(n.func, ast.Attribute) and isinstance(n.func.value, ast.Name):
+                # what is put INTO a local container can later be read back out of it (element aliasing)
+                recv = n.func.value.id
+                if n.func.attr in ('append', 'insert', 'add', 'appendleft', 'setdefault'):
+                    for a in n.args:
+                        self.elem_adds.setdefault(recv, []).append(('val', a))
+                elif n.func.attr in ('extend', 'update'):
+                    for a in n.args:
+                        self.elem_adds.setdefault(recv, []).append(('elems', a))
 
     # ------------------------------------------------------------------ origins
     def origins(self, expr, _stack=()):
@@ -107,7 +119,10 @@ class FunctionEffects(object):
                 out.add(('param', name))
             if name in self.assignments:
                 for kind, v in self.assignments[name]:
-                    out |= self.origins(v, _stack + (key,))
+                    if kind == 'elem':
+                        out |= self.elements_of(v, _stack + (key,))
+                    else:
+                        out |= self.origins(v, _stack + (key,))
             elif name not in self.params and name not in self.locals:
                 # free variable: a local/parameter of an enclosing function, or a module global
                 outer = self.fi.outer
@@ -137,7 +152,7 @@ class FunctionEffects(object):
                 return {('self', expr.value.attr), ('self', '%s[%r]' % (expr.value.attr, expr.slice.value))}
             if isinstance(expr.slice, ast.Slice):
                 return {FRESH}       # x[:] / x[a:b] builds a new container
-            return self.origins(expr.value, _stack)
+            return self.elements_of(expr.value, _stack)
         if isinstance(expr, ast.IfExp):
             return self.origins(expr.body, _stack) | self.origins(expr.orelse, _stack)
         if isinstance(expr, ast.BoolOp):
@@ -159,13 +174,40 @@ class FunctionEffects(object):
                 if f.attr in COPY_METHODS:
                     return {FRESH}
                 if f.attr in VIEW_METHODS:
-                    out = self.origins(f.value, _stack)
+                    out = self.elements_of(f.value, _stack) if f.attr in ('get', 'setdefault', 'pop', '__getitem__') \
+                        else self.origins(f.value, _stack)
                     if f.attr in ('get', 'setdefault', 'pop') and len(expr.args) > 1:
                         out = out | self.origins(expr.args[1], _stack)
                     return out
                 return {FRESH}
             return {FRESH}
         return {FRESH}
+
+    def elements_of(self, container, _stack=()):
+        """Origins of what can be read OUT of `container` (subscript, iteration, pop/get).
+
+        For objects that come from outside (parameters, fields of self, globals) containment is deep: their
+        elements are part of them.  For local containers the elements are whatever was put into them."""
+        out = {o for o in self.origins(container, _stack) if o != FRESH}
+        if isinstance(container, ast.Name) and container.id in self.elem_adds:
+            key = ('elems', container.id)
+            if key not in _stack:
+                for kind, v in self.elem_adds[container.id]:
+                    if kind == 'val':
+                        out |= {o for o in self.origins(v, _stack + (key,)) if o != FRESH}
+                    else:
+                        out |= {o for o in self.elements_of(v, _stack + (key,)) if o != FRESH}
+        if isinstance(container, (ast.List, ast.Tuple, ast.Set)):
+            for e in container.elts:
+                out |= {o for o in self.origins(e, _stack) if o != FRESH}
+        if isinstance(container, ast.Call) and isinstance(container.func, ast.Name) and \
+                container.func.id in ('zip', 'enumerate', 'reversed', 'sorted', 'list', 'tuple', 'iter'):
+            for a in container.args:
+                out |= {o for o in self.elements_of(a, _stack) if o != FRESH}
+        if isinstance(container, ast.Call) and isinstance(container.func, ast.Attribute) and \
+                container.func.attr in ('values', 'items', 'keys'):
+            out |= {o for o in self.elements_of(container.func.value, _stack) if o != FRESH}
+        return out or {FRESH}
 
     @staticmethod
     def _extend(origin, attr):
